@@ -274,6 +274,11 @@ class HModel:
     def global_ref(self, ex, name, node):
         if name == 'UINT_MAX':
             return z3.IntVal(U32 - 1)
+        h = self.hooks.get('global_ref')
+        if h is not None:
+            r = h(ex, name, node)
+            if r is not NotImplemented:
+                return r
         raise CheckerError(f'reference to unknown name {name} at parsing.h:{line_of(node)}')
 
     def init_list(self, ex, ty, vals, node):
@@ -285,7 +290,7 @@ class HModel:
         raise CheckerError(f'construction of {ty} at parsing.h:{line_of(node)}')
 
     def lambda_(self, ex, e, env):
-        raise CheckerError('lambda in a helper')
+        return Abstract('lambda', node=e)          # a value; executed only where a contract applies it (the comparator of cell::sort)
 
     def call(self, ex, name, args, node, env):
         if name == 'lowest':
@@ -364,10 +369,11 @@ class HModel:
     def inline_own_method(self, ex, obj, name, args, node):
         """a call of another method of the class under verification that has no contract of its own here (a private helper such as an index
         computation): its body is executed in place, with `this` bound to the same object"""
-        if not isinstance(obj, Obj) or obj.kind not in ('matrix', 'chart', 'cell') or getattr(ex, '_inline_depth', 0) > 3:
+        record = 'cell_item' if isinstance(obj, Item) else (obj.kind if isinstance(obj, Obj) else None)
+        if record not in ('matrix', 'chart', 'cell', 'cell_item') or getattr(ex, '_inline_depth', 0) > 3:
             return NotImplemented
         try:
-            fn_ = self.ast.method(obj.kind, name)
+            fn_ = self.ast.method(record, name)
         except CheckerError:
             return NotImplemented
         params = [c['name'] for c in fn_.get('inner', []) if c.get('kind') == 'ParmVarDecl']
@@ -1090,6 +1096,60 @@ def chart_records(ast):
                 ('post', cell.f['category_ids'].f['ids'] == z3.Store(cell.f0['ids'], item.f['cat'], z3.BoolVal(True)), 'category_ids gains exactly the category of the item'),
                 ('frame', z3.And(cell.f['seen'] == cell.f0['seen'], lst.f['n0'] == cell.f0['n0']), 'the seen flag and the older elements are untouched')]
     recs += verify_function(ast, ms[('cell', 'emplace')], 'parsing::chart::cell::emplace', setup_e, post_e, [], ('C02', 'C10'), hooks=dict(method=stl, ret_ref=True))
+
+    # ---- cell::sort: the list is sorted with a comparator that means `the first argument has the higher score` (list::sort(cmp) assumed: a permutation
+    # ordered by cmp), nothing else of the cell changes
+    def setup_sort(ex, m):
+        cell = CellObj(ex, 'this')
+        st.update(cell=cell, sorts=[])
+        return {'this': Ptr(cell)}
+
+    def method_sort(ex, obj, name, args, node):
+        if isinstance(obj, IList) and name == 'sort' and len(args) == 1:
+            st['sorts'].append(args[0].v if isinstance(args[0], AddrOf) else args[0])
+            return None
+        return stl(ex, obj, name, args, node)
+
+    def global_sort(ex, name, node):
+        if ('cell', name) in ms:
+            return Abstract('function', fn=ms[('cell', name)])
+        return NotImplemented
+
+    def apply_comparator(ex, cmp, a, b):
+        if isinstance(cmp, Abstract) and cmp.kind == 'lambda':
+            meth = [n for n in _walk(cmp.node) if n.get('kind') == 'CXXMethodDecl' and n.get('name') == 'operator()']
+            bodies = [c for c in cmp.node.get('inner', []) if c.get('kind') == 'CompoundStmt']
+            if not meth or not bodies:
+                raise CheckerError('comparator lambda of cell::sort has no analysable body')
+            params, body = [c['name'] for c in meth[0].get('inner', []) if c.get('kind') == 'ParmVarDecl'], bodies[-1]
+        elif isinstance(cmp, Abstract) and cmp.kind == 'function':
+            params, body = [c['name'] for c in cmp.fn.get('inner', []) if c.get('kind') == 'ParmVarDecl'], body_of(cmp.fn)
+        else:
+            raise CheckerError(f'comparator of cell::sort is {cmp!r}: not a lambda or a function of the cell')
+        if len(params) != 2:
+            raise CheckerError('comparator of cell::sort does not take two items')
+        try:
+            ex.run(body, {params[0]: a, params[1]: b})
+        except _Return as r:
+            return r.v
+        raise CheckerError('comparator of cell::sort returns nothing')
+
+    def post_sort(ex, env, ret):
+        cell = st['cell']
+        lst = cell.f['items']
+        ok = len(st['sorts']) == 1 and isinstance(lst, IList) and not lst.new
+        out = [('post', z3.BoolVal(bool(ok)), 'the item list is sorted exactly once and nothing is inserted')]
+        if ok:
+            a, b = sym_item(ex, 'first'), sym_item(ex, 'second')
+            r = apply_comparator(ex, st['sorts'][0], a, b)
+            out.append(('post', ex.truth(r) == (a.f['in_score'] + a.f['out_score'] > b.f['in_score'] + b.f['out_score']),
+                        'the comparator orders an item before another iff its score (inside + outside) is strictly higher: best first'))
+        out.append(('frame', z3.And(cell.f['seen'] == cell.f0['seen'], cell.f['category_ids'].f['ids'] == cell.f0['ids'], lst.f['n0'] == cell.f0['n0']),
+                    'seen flag, category set and number of items are untouched'))
+        return out
+    if ('cell', 'sort') not in ms:
+        raise CheckerError('parsing::chart: method cell::sort not found')
+    recs += verify_function(ast, ms[('cell', 'sort')], 'parsing::chart::cell::sort', setup_sort, post_sort, [], ('C10',), hooks=dict(method=method_sort, global_ref=global_sort))
 
     # ---- cell::size
     recs += verify_function(ast, ms[('cell', 'size')], 'parsing::chart::cell::size', setup_c,
